@@ -27,6 +27,10 @@ var properties = map[string][]harnessSpec{
 	"C15": {
 		{Name: "note.VerifC15Semitone", Solver: "cvc5-int", Quick: map[string]int{"C15.maxN": 64}, Thorough: map[string]int{"C15.maxN": 4096}, Marks: end},
 		{Name: "note.VerifC15SemitoneUnbounded", Solver: "cvc5-int", Marks: end, MustTerminate: true},
+		{Name: "note.VerifC15AddDegree", Solver: "cvc5-int", Quick: map[string]int{"C15.maxAdd": 15}, Thorough: map[string]int{"C15.maxAdd": 64}, Marks: []string{"end", "refused"}},
+		{Name: "note.VerifC15ParseDegree", Solver: "cvc5-int", Quick: map[string]int{"C15.digits": 2}, Thorough: map[string]int{"C15.digits": 3}, Marks: end},
+		{Name: "desc.VerifC15Describe", Quick: map[string]int{"C15.chords": 4}, Thorough: map[string]int{"C15.chords": 46}, Marks: end},
+		{Name: "note.VerifC10DegreeCodec", Quick: map[string]int{"C10.maxNumber": 99}, Thorough: map[string]int{"C10.maxNumber": 999}, Marks: end},
 	},
 	"C01": {
 		{Name: "chord.VerifC16LookupHistory", Quick: map[string]int{"C16.history": 2}, Thorough: map[string]int{"C16.history": 3}, Marks: end},
